@@ -6,7 +6,9 @@ import (
 	"encoding/hex"
 	"fmt"
 	"math"
+	"os"
 	"sort"
+	"strconv"
 	"strings"
 
 	"perun.network/go-perun/wire"
@@ -78,10 +80,14 @@ type tierCfg struct {
 }
 
 func cfgOf(tier string) tierCfg {
+	c := tierCfg{perGroup: 0, maxDense: 2048, truncAll: false, pbAllDense: false, pairMax: 0}
 	if tier == "thorough" {
-		return tierCfg{perGroup: 8, maxDense: 5200, truncAll: true, pbAllDense: true, pairMax: 420}
+		c = tierCfg{perGroup: 8, maxDense: 5200, truncAll: true, pbAllDense: true, pairMax: 420}
 	}
-	return tierCfg{perGroup: 2, maxDense: 2048, truncAll: false, pbAllDense: false, pairMax: 0}
+	if v, err := strconv.Atoi(os.Getenv("VERIF_DECODE_PERGROUP")); err == nil { // experiments only
+		c.perGroup = v
+	}
+	return c
 }
 
 // fieldsOf re-encodes the catalogue entry of a native seed through a recording writer and
@@ -231,12 +237,15 @@ func buildPlan(tier string, shard, nshards int) *plan {
 			continue
 		}
 		ps := planSeed{Idx: i, Name: s.Name, Kind: s.Kind, Rep: s.Rep, Bytes: s.Bytes, TruncFrom: -1}
-		l := float64(len(s.Bytes))
+		// work estimate in seconds: a decode costs about 2 us plus 20 ns per byte; on a tree
+		// whose address map decoders allocate what a hostile length announces, each 4 byte
+		// field of a native seed costs about three worker deaths of 4 s each
+		per := 2e-6 + 20e-9*float64(len(s.Bytes))
 		cost := 0.0
 		if hasT {
 			ps.TruncFrom = tf
 			p.TruncSeeds++
-			cost += float64(len(s.Bytes)-tf) * l
+			cost += float64(len(s.Bytes)-tf) * per
 		}
 		if dense[i] {
 			ps.Dense = true
@@ -246,16 +255,23 @@ func buildPlan(tier string, shard, nshards int) *plan {
 				p.Notes = append(p.Notes, fmt.Sprintf("seed %s: the encoder's writes could not be recorded (unstable encoding); no field family for it", s.Name))
 			}
 			ps.Fields = f
-			cost += 9*l*l + 30*float64(len(f))*l
+			cost += (9*float64(len(s.Bytes)) + 30*float64(len(f))) * per
+			if s.Kind != "protobuf-envelope" {
+				for _, fl := range f {
+					if fl[1] == 4 {
+						cost += 12
+					}
+				}
+			}
 			if s.Kind == "protobuf-envelope" && (s.Rep || cfg.pbAllDense) {
 				ps.PB = true
 				p.PBSeeds++
 				n := pbCount(s.Bytes)
-				cost += float64(n) * l * 2
+				cost += float64(n) * per * 3
 				if s.Rep && cfg.pairMax > 0 && n <= cfg.pairMax {
 					ps.PBPairs = true
 					p.PBPairSeeds++
-					cost += float64(n) * float64(n) / 2 * l * 2
+					cost += float64(n) * float64(n) / 2 * per * 3
 				}
 			}
 		}
